@@ -32,6 +32,7 @@ type world struct {
 	n2     *reftx.Block // height 112 on n1
 	n1c    *reftx.Block // height 111 sibling: coinbase only
 	n1d    *reftx.Block // height 111 sibling: coinbase + txT (for two prefilled)
+	n1w    *reftx.Block // height 111 sibling: coinbase + witness-flagged txW, with commitment
 }
 
 func o1(v uint64) reftx.Out { return reftx.Out{Value: v, Script: []byte{0x51}} }
